@@ -459,7 +459,7 @@ class Prog:
                 code.append(I("sink", a=[a], n=ln))
             elif k == "bt":
                 ops = [self._use(f, code, x) for x in s["xs"]]
-                ln = self._line("%sbt%d(%s)" % (tab, len(s["xs"]), ", ".join(s["xs"])))
+                ln = self._line("%sbt%d(%s)" % (tab, len(s["xs"]), ", ".join(argtxt(s["xs"]))))
                 code.append(I("bt", a=ops, n=ln))
             elif k == "probe":
                 a = self._use(f, code, s["a"])
